@@ -120,6 +120,19 @@ def m_float_nan_inf(case: dict, xd: Any, what: str) -> bool:
     return False
 
 
+def m_zero_factor(case: dict, xd: Any, what: str) -> bool:
+    """D28: MultipleOf with a zero factor: `x % 0` raises ZeroDivisionError (int, float) / InvalidOperation (Decimal)"""
+    if "ZeroDivisionError" not in what and "InvalidOperation" not in what:
+        return False
+    for d in walk(vdesc(case)):
+        if d.get("k") == "MultipleOf":
+            v = d.get("v", {})
+            if (v.get("t") == "int" and v.get("i") == 0) or (v.get("t") == "float" and v.get("k") == "fin" and v.get("m") == 0) \
+                    or (v.get("t") == "decimal" and v.get("k") == "fin" and v.get("c") == 0):
+                return True
+    return False
+
+
 def m_negative_count(case: dict, xd: Any, what: str) -> bool:
     """D26: a negative parameter of a length / item-count / key-count predicate is emitted as it is; the
     metaschema requires a non-negative integer there"""
@@ -169,6 +182,7 @@ MATCHERS: Dict[str, Callable[[dict, dict, str], bool]] = {
     "explained_by_D27": explained_by("D27"),
     "float_nan_inf_in_schema": m_float_nan_inf,
     "negative_count_in_schema": m_negative_count,
+    "zero_factor": m_zero_factor,
     "label_collision_in_schema": m_label_collision,
     "container_pred_on_payload": m_container_pred_on_payload,
     "special_decimal": m_special_decimal,
